@@ -320,7 +320,9 @@ def run(ctx: Ctx):
         after = [st for st in writes if (st.lineno, st.col_offset) > (dump_w[-1].lineno, dump_w[-1].col_offset)]
         okw = all(isinstance(st.value.args[0], ast.Constant) and str(st.value.args[0].value).strip() == "" for st in after)
         # and the box write is at the top level of the function body (unconditional once reached)
-        okw = okw and dump_w[-1] in closing.node.body
+        from ..cfg import cguards_of, canon_test, parents_map as _pm
+        empty_exit = {canon_test(ast.parse("self._natoms is None and self._current_atom == 0", mode="eval").body, False)}
+        okw = okw and set(cguards_of(dump_w[-1], _pm(closing.node))) <= empty_exit
     ctx.ob("R14.3", closing, dump_w[-1] if dump_w else "box write", okw,
            "the box line is the last data written and is written unconditionally at the end of closing",
            node=dump_w[-1] if dump_w else closing.node)
